@@ -327,6 +327,12 @@ int main() {
             raise common.InfraError("winf driver does not compile:\n%s\n%s" % (plan[1], log[:3000]))
     for (binary, _), (idx, text, targets, byname, physmap, size, order) in zip(built, plans):
         lines, meta = [], []
+        for k in chk.known:      # pinned inputs of the open write-inference findings
+            pin = k.get("input") if isinstance(k.get("input"), dict) else {}
+            if k.get("property") == chk.prop and k.get("status") == "open" and \
+                    pin.get("kind") == "winf" and pin.get("emb") == text and pin["field"] in targets:
+                lines.append("%d %s %d" % (targets.index(pin["field"]), pin["data"], pin["value"]))
+                meta.append((pin["field"], list(bytes.fromhex(pin["data"])), pin["value"]))
         for i, nm in enumerate(targets):
             for _ in range(10):
                 data = [r.getrandbits(8) for _ in range(size)]
@@ -355,12 +361,43 @@ int main() {
                 stats["winf_cpp_unjudged"] += 1
                 continue
             if rl != exp:
-                stats["winf_cpp_failing"] += 1
-                if stats["winf_cpp_failing"] > 6:
-                    continue
+                key = wrap_finding_key(nm, v, byname, physmap)
+                if chk.known_finding(key) is None:
+                    stats["winf_cpp_failing"] += 1
+                    if stats["winf_cpp_failing"] > 6:
+                        continue
+                else:
+                    stats["winf_known_finding_cases"] += 1
                 chk.violation("input", {"input": text, "kind_of_input": "winf", "field": nm,
                                         "data": S.hexs(data), "value": v, "observed": rl,
-                                        "expected": exp})
+                                        "expected": exp}, key=key)
+
+
+def wrap_finding_key(nm, v, byname, physmap):
+    """Narrow predicate of the open finding `virtual-write-inverse-wraps-in-unsigned-
+    destination-type`: following the write chain with exact integers, the value that would
+    have to be stored in a 32- or 64-bit UInt destination is negative or too large (the C++
+    computes it modulo 2^32 / 2^64 and accepts it)."""
+    cur = byname[("Top", nm)]
+    u = v
+    for _ in range(20):
+        key = ("Top", cur["name"]["name"]["text"])
+        if key in physmap:
+            ty, nb, _off = physmap[key]
+            if ty == "UInt" and nb in (4, 8) and (u < 0 or u >= 2 ** (8 * nb)):
+                return "virtual-write-inverse-wraps-in-unsigned-destination-type"
+            return None
+        wm = cur.get("write_method", {})
+        if "alias" in wm:
+            cur = byname[strip_name(wm["alias"])[0]]
+        elif "transform" in wm:
+            u = py_eval(wm["transform"]["function_body"], {}, u)
+            if u is None:
+                return None
+            cur = byname[strip_name(wm["transform"]["destination"])[0]]
+        else:
+            return None
+    return None
 
 
 def requires_ok(f, v):
@@ -465,17 +502,23 @@ def run_winf(chk, tier, model_exe, stats, budget="run"):
     n_cpp = 2 if tier == "quick" else 16
     mods = []
     # the example of the source comment first
-    corpus = ['[$default byte_order: "LittleEndian"]\n[(cpp) namespace: "vw9000"]\nstruct Top:\n'
-              '  0 [+4] Int f0\n  let v0 = 2 + ((3 - f0) - 10)\n  let v1 = v0\n  let v2 = v1 + 1\n']
+    corpus = [('[$default byte_order: "LittleEndian"]\n[(cpp) namespace: "vw9000"]\nstruct Top:\n'
+               '  0 [+4] Int f0\n  let v0 = 2 + ((3 - f0) - 10)\n  let v1 = v0\n  let v2 = v1 + 1\n',
+               [("f0", "Int", 4, 0)], 9000)]
+    for k in chk.known:          # modules of the pinned write-inference findings
+        pin = k.get("input") if isinstance(k.get("input"), dict) else {}
+        if k.get("property") == chk.prop and k.get("status") == "open" and pin.get("kind") == "winf":
+            corpus.append((pin["emb"], [("f0", "UInt", 4, 0)], 9001 + len(corpus) - 1))
+    n_cpp += len(corpus)
     for i in range(n):
         if i < len(corpus):
-            text, phys = corpus[i], [("f0", "Int", 4, 0)]
+            text, phys, idx = corpus[i]
         else:
             text, phys = gen_struct(r, i)
+            idx = i
         got = check_module(chk, text, stats, model_exe)
         if got is not None and len(mods) < n_cpp:
             ir, struct, index = got
-            idx = 9000 if i == 0 else i
             mods.append((idx, text, ir, struct, index, phys))
     stats["winf_modules"] = n
     if mods:
